@@ -69,7 +69,7 @@ def nl_rule(cell, path):
 def html_rule(cell, path):
     parts = []
     for ii, it in enumerate(cell):
-        if is_table(it):
+        if is_table(it) or it == "/":
             continue
         ip = f"{path}i{ii}"
         parts.append(tok(ip + "a") + tok(ip + "b") if it == "s" else par_text(it, ip))
@@ -207,6 +207,9 @@ def html_text(doc):
             for ci, c in enumerate(r):
                 ctag = "th" if ri < t["hdr"] else "td"
                 cp = f"{path}.r{ri}c{ci}"
+                if c == ["/"]:          # empty cell in self-closed form
+                    out += f"<{ctag}/>"
+                    continue
                 out += f"<{ctag}>"
                 if c == ["p"]:
                     out += tok(cp + "i0")
@@ -231,6 +234,68 @@ def epub_bytes(doc):
                    "META-INF/container.xml": '<?xml version="1.0"?><container version="1.0" xmlns="urn:oasis:names:tc:opendocument:xmlns:container"><rootfiles>'
                                              '<rootfile full-path="OEBPS/content.opf" media-type="application/oebps-package+xml"/></rootfiles></container>',
                    "OEBPS/content.opf": opf, "OEBPS/c1.xhtml": xhtml})
+
+
+# ----------------------------------------------------------------------- rtf --
+RTF_FILLER = "Between the tables stands a paragraph that is long enough to count as running text of the document and not as part of a table row at all."
+
+
+def rtf_bytes(doc, row_sep="\n", cell_prefix="\\intbl "):
+    """rows `\\trowd...\\cell...\\row` joined by row_sep ('' = written back to back); tables separated by a long paragraph
+    (RTF has no table delimiter: adjacent rows ARE one table)"""
+    out = "{\\rtf1\\ansi\\deff0{\\fonttbl{\\f0 Arial;}}\\pard Intro paragraph\\par "
+    prev_table = False
+    for bi, b in enumerate(doc):
+        if not is_table(b):
+            out += "\\pard " + (RTF_FILLER + " " + tok(f"b{bi}")) + "\\par "
+            prev_table = False
+            continue
+        if prev_table:
+            out += "\\pard " + RTF_FILLER + "\\par "
+        rows = []
+        for ri, r in enumerate(b["rows"]):
+            defs = "".join(f"\\cellx{1500 * (i + 1)}" for i in range(len(r)))
+            cells = ""
+            for ci, c in enumerate(r):
+                pars = [par_text(it, f"b{bi}.r{ri}c{ci}i{ii}") for ii, it in enumerate(c) if not is_table(it)]
+                cells += cell_prefix + "\\par ".join(pars) + "\\cell"
+            rows.append(f"\\trowd\\trgaph108{defs}{cells}\\row")
+        out += row_sep.join(rows)
+        prev_table = True
+    return (out + "\\pard After\\par}").encode("ascii")
+
+
+def rtf_expected(doc):
+    return [[[ "\n".join(par_text(it, f"b{bi}.r{ri}c{ci}i{ii}") for ii, it in enumerate(c) if not is_table(it)) for ci, c in enumerate(r)]
+             for ri, r in enumerate(b["rows"])] for bi, b in enumerate(doc) if is_table(b)]
+
+
+RTF_LAYOUTS = (("\n", "\\intbl "), ("", "\\intbl "), ("\n", " "), ("", " "), ("\r\n", "\\pard\\intbl "), (" ", "\\intbl "))
+
+
+def rtf_shapes():
+    P = ["p"]
+    return [[T([[P]])], [T([[P, P]])], [T([[P], [P]])], [T([[P, P], [P, P]])], [T([[P, P], [P, P], [P, P]])], [T([[P], [P], [P], [P]])],
+            [T([[[], P], [P, []]])], [T([[["p", "p"], P]])], [T([[P]]), T([[P, P], [P, P]])], [T([[P], [P]]), "p", T([[P], [P]])], ["p", T([[P, P]])]]
+
+
+def search_rtf(clauses=("tables-in-document-order", "rows-and-cells", "cell-holds")):
+    from sharepoint2text.parsing.extractors.ms_legacy.rtf_extractor import read_rtf
+    for doc in rtf_shapes():
+        want = rtf_expected(doc)
+        for sep, pre in RTF_LAYOUTS:
+            data = rtf_bytes(doc, sep, pre)
+            res = list(read_rtf(io.BytesIO(data), "a.rtf"))[0]
+            tabs = list(res.iterate_tables())
+            got, dims = [t.get_table() for t in tabs], [t.get_dim() for t in tabs]
+            for cl in clauses:
+                bad, detail = clause_fails(cl, got, want)
+                if not bad and not dims_ok(got, dims):
+                    bad, detail = True, "get_dim() disagrees with get_table()"
+                if bad:
+                    return {"target": "rtf_extractor.py::read_rtf", "inputs": {"shape": doc, "row_separator": sep, "cell_prefix": pre, "rtf": data.decode("ascii")},
+                            "expected": want, "observed": got, "detail": detail}
+    return None
 
 
 # -------------------------------------------------------------------- sheets --
@@ -448,6 +513,17 @@ def run_shape(fname, shape):
 def replay_shape(obligation, shape):
     fname = obligation.split("/")[1].split("::")[0]
     clause = obligation.split("#")[-1]
+    if fname == "rtf_extractor.py" and isinstance(shape, dict) and "doc" in shape:
+        from sharepoint2text.parsing.extractors.ms_legacy.rtf_extractor import read_rtf
+        res = list(read_rtf(io.BytesIO(rtf_bytes(shape["doc"], shape.get("row_separator", "\n"), shape.get("cell_prefix", "\\intbl "))), "a.rtf"))[0]
+        tabs = list(res.iterate_tables())
+        got, dims, want = [t.get_table() for t in tabs], [t.get_dim() for t in tabs], rtf_expected(shape["doc"])
+        if "no-exception" in clause:
+            return False, "no exception natively", got, want
+        bad, detail = clause_fails(clause, got, want)
+        if not bad and not dims_ok(got, dims):
+            bad, detail = True, "get_dim() disagrees with get_table()"
+        return bad, detail, got, want
     try:
         got, want, dims = run_shape(fname, shape)
     except Exception as e:  # noqa
@@ -530,11 +606,29 @@ def search_xlsx_values():
     return None
 
 
-def search_shapes(obligation):
-    """small native scope for a bounded obligation without a witness"""
+def search_shapes(obligation, skip_known=False):
+    """small native scope for a bounded obligation without a witness (skip_known: leave out the constructs of the recorded
+    known findings -- nested tables, html multi-paragraph cells, epub inline markup, first-row rewriting of xlsx / xls)"""
     fname = obligation.split("/")[1].split("::")[0]
     P = ["p"]
     inner = T([[P]])
+    if skip_known:
+        if fname in ("xlsx_extractor.py", "ods_extractor.py", "xls_extractor.py"):
+            num = "i" if fname != "xls_extractor.py" else "F"
+            shapes = ([[["s", "s"]], [["s"]]] if fname != "xls_extractor.py" else []) + [[["s", "s"], ["s", num]], [["s"], ["b"]], [["s", "s"], ["N", "f"]], [["s", "s"], ["N", "N"], ["s", "N"]], [["s", "s"], ["s", "s"], [num, "s"]]]
+        else:
+            shapes = [[T([[P]])], [T([[P, P], [P, P]])], [T([[[]], [P]])], [T([[P], [P, P]])], [T([[P]]), T([[P]])], [T([[P]]), "p", T([[P, P]])], [T([[P], [P]], 1)], [T([[P, P]]), T([[P], [P]]), T([[P]])]]
+            if fname not in ("html_extractor.py",):
+                shapes.append([T([[["p", "p"], P]])])
+            if fname == "pptx_extractor.py":
+                shapes = [[b for b in s_ if is_table(b)] for s_ in shapes if not any(is_table(b) and b["hdr"] for b in s_)]
+            if fname == "odp_extractor.py":
+                shapes = [s_ for s_ in shapes if len(s_) == 1]
+        for sh in shapes:
+            bad, detail, got, want = replay_shape(obligation, sh)
+            if bad:
+                return {"target": obligation, "inputs": {"shape": sh}, "expected": want, "observed": got, "detail": detail}
+        return None
     if fname in ("xlsx_extractor.py", "ods_extractor.py", "xls_extractor.py"):
         shapes = [[["s"]], [["s", "s"], ["s", "i" if fname != "xls_extractor.py" else "F"]], [["s", "N"], ["s", "s"]], [["N", "s"], ["s", "s"]], [["s", "="], ["s", "s"]],
                   [["s"], ["b"]], [["s", "s"], ["N", "f"]], [["s", "s"], ["N", "N"], ["s", "N"]]]
@@ -545,6 +639,7 @@ def search_shapes(obligation):
                   [T([[[inner]]])], [T([[["p", inner]], [P]])], [T([[P], [P]], 1)]]
         if fname in ("html_extractor.py", "epub_extractor.py"):
             shapes.append([T([[["s"]]])])
+            shapes += [[T([[["/"], P]])], [T([[P, ["/"]], [["/"], P]], 1)], [T([[["/"]]])]]
         if fname == "pptx_extractor.py":
             shapes = [s for s in shapes if len(s) == 1 and not any(is_table(i) for r in s[0]["rows"] for c in r for i in c) and not s[0]["hdr"]]
         if fname == "odp_extractor.py":
@@ -574,13 +669,24 @@ def find(req):
         bad, detail, got, want = replay_shape(ob, w["shape"])
         if bad:
             return {"reproduced": True, "target": ob, "inputs": {"shape": w["shape"]}, "expected": want, "observed": got, "detail": detail}
-        r = search_shapes(ob)
+        r = search_rtf() if "rtf_extractor.py" in ob else search_shapes(ob)
         if r:
             return dict(r, reproduced=True)
         return {"reproduced": False, "note": "the witness shape and the small native scope satisfy the clause natively", "shape": w["shape"], "observed": got}
     if "/bounded#" in ob:
-        r = search_shapes(ob)
+        r = search_rtf() if "rtf_extractor.py" in ob else search_shapes(ob)
         return dict(r, reproduced=True) if r else {"reproduced": False, "note": "small native scope satisfies the clause"}
+    if "/call-site#" in ob and "rtf_extractor.py" not in ob:
+        # a call site that hands the walker's result on was not recognised: run the public reader end to end
+        fname = ob.split("/")[1].split("::")[0]
+        for clause in ("tables-in-document-order-none-lost-none-invented", "rows-and-cells-are-the-direct-ones", "cell-holds-its-own-text"):
+            r = search_shapes(f"C13/{fname}::reader/bounded#{clause}", skip_known=True)
+            if r:
+                return dict(r, reproduced=True)
+        return {"reproduced": False, "note": "the public reader returns the source grids on the native scope"}
+    if "rtf_extractor.py" in ob:
+        r = search_rtf()
+        return dict(r, reproduced=True) if r else {"reproduced": False, "note": "RTF tables (rows newline-separated / back to back, several layouts) agree natively"}
     if "pptx_extractor.py::_extract_table_from_graphic_frame" in ob:
         # symbolic-shape obligation (invariants / ensures): look for any clause of the grid spec failing natively
         for clause in ("rows-and-cells-are-the-direct-ones", "cell-holds-its-own-text", "tables-in-document-order"):
